@@ -1,5 +1,6 @@
 import Model.CachedGuard
 import Proofs.Cache
+import Proofs.Residency
 /-!
 # C11 — the cached guard answers exactly like an uncached one
 -/
@@ -200,35 +201,128 @@ theorem lru_put_find [DecidableEq κ] (cap : Option Nat) (c : Lru κ Bool) (k : 
     | zero => exact absurd hcc hc
     | succ m => simp [lruBackend, hcc, Lru.trim, Lru.find]
 
-/-- between mutations an immediately repeated inquiry is answered without consulting the storage
-again, for every capacity other than 0 (partial form of the within-capacity clause: the general
-"fewer than `cap` distinct other inquiries in between" form is checked differentially against
-`functools.lru_cache`, not proved) -/
-theorem within_capacity_hit_partial [DecidableEq κ] (cfg : Cfg) (answer : St → κ → Bool) (cap : Option Nat)
+/-- a run of asks with no mutation in between -/
+def asks (cfg : Cfg) (answer : St → κ → Bool) (b : Backend κ σ) (g : CG σ) (ks : List κ) : CG σ :=
+  ks.foldl (fun g k' => (CachedGuard.step cfg answer b g (.ask k')).1) g
+
+/-- what stays true of the default back-end while only asks drawn from `D ∪ {k}` happen -/
+def Held [DecidableEq κ] (cap : Option Nat) (k : κ) (D : List κ) (g : CG (Lru κ Bool)) : Prop :=
+  g.cache.cap = cap ∧ Lru.Front k D g.cache.entries
+
+theorem held_after_ask [DecidableEq κ] (cfg : Cfg) (answer : St → κ → Bool) (cap0 : Option Nat)
+    (g : CG (Lru κ Bool)) (hc : g.cache.cap ≠ some 0) (k : κ) (D : List κ) :
+    Held g.cache.cap k D (CachedGuard.step cfg answer (lruBackend cap0) g (.ask k)).1 := by
+  cases hf : Lru.find k g.cache.entries with
+  | some v =>
+    have h1 := lru_lookup_hit cap0 g.cache k v hc hf
+    simp only [CachedGuard.step, h1]
+    exact ⟨rfl, Lru.front_touch_self⟩
+  | none =>
+    have h1 := lru_lookup_miss cap0 g.cache k hf
+    simp only [CachedGuard.step, h1]
+    cases hcc : g.cache.cap with
+    | none =>
+      refine ⟨by simp [lruBackend, hcc], ?_⟩
+      simp only [lruBackend, hcc, Lru.trim]
+      exact ⟨[], _, _, rfl, by simp [Lru.keys], by simp [Lru.keys], by simp [Lru.keys]⟩
+    | some n =>
+      cases n with
+      | zero => exact absurd hcc hc
+      | succ m =>
+        refine ⟨by simp [lruBackend, hcc], ?_⟩
+        simp only [lruBackend, hcc, Lru.trim, List.take_succ_cons]
+        exact ⟨[], _, _, rfl, by simp [Lru.keys], by simp [Lru.keys], by simp [Lru.keys]⟩
+
+theorem held_step [DecidableEq κ] (cfg : Cfg) (answer : St → κ → Bool) (cap0 cap : Option Nat)
+    (g : CG (Lru κ Bool)) (hc : cap ≠ some 0) (k k' : κ) (D : List κ) (hroom : Lru.Room cap D.length)
+    (hk' : k' ≠ k → k' ∈ D) (h : Held cap k D g) :
+    Held cap k D (CachedGuard.step cfg answer (lruBackend cap0) g (.ask k')).1 := by
+  obtain ⟨hcap, hfront⟩ := h
+  have hc' : g.cache.cap ≠ some 0 := by rw [hcap]; exact hc
+  by_cases he : k' = k
+  · subst he
+    obtain ⟨v, hf⟩ := hfront.find
+    have h1 := lru_lookup_hit cap0 g.cache k' v hc' hf
+    simp only [CachedGuard.step, h1]
+    exact ⟨hcap, Lru.front_touch_self⟩
+  · cases hf : Lru.find k' g.cache.entries with
+    | some v' =>
+      have h1 := lru_lookup_hit cap0 g.cache k' v' hc' hf
+      simp only [CachedGuard.step, h1]
+      exact ⟨hcap, Lru.front_hit_other hfront he (hk' he)⟩
+    | none =>
+      have h1 := lru_lookup_miss cap0 g.cache k' hf
+      simp only [CachedGuard.step, h1]
+      have hput : (lruBackend cap0).put g.cache k' (answer g.store k') =
+          { g.cache with entries := Lru.trim g.cache.cap ((k', answer g.store k') :: g.cache.entries) } := by
+        cases hcc : g.cache.cap with
+        | none => simp [lruBackend, hcc]
+        | some n =>
+          cases n with
+          | zero => exact absurd hcc hc'
+          | succ m => simp [lruBackend, hcc]
+      rw [hput]
+      refine ⟨hcap, ?_⟩
+      simp only
+      rw [hcap]
+      exact Lru.front_miss_other hfront he (hk' he) hf hroom
+
+theorem held_asks [DecidableEq κ] (cfg : Cfg) (answer : St → κ → Bool) (cap0 cap : Option Nat)
+    (hc : cap ≠ some 0) (k : κ) (D : List κ) (hroom : Lru.Room cap D.length) (ks : List κ)
+    (hD : ∀ x ∈ ks, x ≠ k → x ∈ D) :
+    ∀ g : CG (Lru κ Bool), Held cap k D g → Held cap k D (asks cfg answer (lruBackend cap0) g ks) := by
+  induction ks with
+  | nil => intro g h; exact h
+  | cons k' rest ih =>
+    intro g h
+    simp only [asks, List.foldl_cons]
+    exact ih (fun x hx => hD x (List.mem_cons_of_mem _ hx)) _
+      (held_step cfg answer cap0 cap g hc k k' D hroom (hD k' (List.mem_cons_self ..)) h)
+
+/-- **within capacity**: between mutations, an inquiry asked again after any run of other asks
+that are drawn from a set `D` of fewer inquiries than the capacity (any run at all for an
+unbounded cache) is answered without consulting the storage again -/
+theorem within_capacity_hit [DecidableEq κ] (cfg : Cfg) (answer : St → κ → Bool) (cap0 : Option Nat)
+    (g : CG (Lru κ Bool)) (hc : g.cache.cap ≠ some 0) (k : κ) (ks D : List κ)
+    (hD : ∀ x ∈ ks, x ≠ k → x ∈ D) (hroom : Lru.Room g.cache.cap D.length) :
+    (CachedGuard.step cfg answer (lruBackend cap0)
+        (asks cfg answer (lruBackend cap0) (CachedGuard.step cfg answer (lruBackend cap0) g (.ask k)).1 ks)
+        (.ask k)).1.storageAsks =
+      (asks cfg answer (lruBackend cap0) (CachedGuard.step cfg answer (lruBackend cap0) g (.ask k)).1 ks).storageAsks := by
+  have h0 := held_after_ask cfg answer cap0 g hc k D
+  have h1 := held_asks cfg answer cap0 g.cache.cap hc k D hroom ks hD _ h0
+  obtain ⟨hcap, hfront⟩ := h1
+  generalize asks cfg answer (lruBackend cap0) (CachedGuard.step cfg answer (lruBackend cap0) g (.ask k)).1 ks = g2
+    at hcap hfront ⊢
+  obtain ⟨v, hf⟩ := hfront.find
+  have hl := lru_lookup_hit cap0 g2.cache k v (by rw [hcap]; exact hc) hf
+  simp only [CachedGuard.step, hl]
+
+/-- in particular an immediately repeated inquiry never reaches the storage, for every capacity other than 0 -/
+theorem immediate_repeat_hit [DecidableEq κ] (cfg : Cfg) (answer : St → κ → Bool) (cap : Option Nat)
     (g : CG (Lru κ Bool)) (hc : g.cache.cap ≠ some 0) (k : κ) :
     (CachedGuard.step cfg answer (lruBackend cap)
         (CachedGuard.step cfg answer (lruBackend cap) g (.ask k)).1 (.ask k)).1.storageAsks =
       (CachedGuard.step cfg answer (lruBackend cap) g (.ask k)).1.storageAsks := by
-  cases hf : Lru.find k g.cache.entries with
-  | some v =>
-    have h1 := lru_lookup_hit cap g.cache k v hc hf
-    have hstep : (CachedGuard.step cfg answer (lruBackend cap) g (.ask k)).1 =
-        { g with cache := { g.cache with entries := (k, v) :: Lru.remove k g.cache.entries } } := by
-      simp only [CachedGuard.step, h1]
-    rw [hstep]
-    have h2 := lru_lookup_hit cap { g.cache with entries := (k, v) :: Lru.remove k g.cache.entries } k v hc
-      (by simp [Lru.find])
-    simp only [CachedGuard.step, h2]
-  | none =>
-    have h1 := lru_lookup_miss cap g.cache k hf
-    have hstep : (CachedGuard.step cfg answer (lruBackend cap) g (.ask k)).1 =
-        { g with cache := (lruBackend cap).put g.cache k (answer g.store k), storageAsks := g.storageAsks + 1 } := by
-      simp only [CachedGuard.step, h1]
-    rw [hstep]
-    obtain ⟨hcap, hfind⟩ := lru_put_find cap g.cache k (answer g.store k) hc
-    have h2 := lru_lookup_hit cap ((lruBackend cap).put g.cache k (answer g.store k)) k (answer g.store k)
-      (by rw [hcap]; exact hc) hfind
-    simp only [CachedGuard.step, h2]
+  have hroom : Lru.Room g.cache.cap ([] : List κ).length := by
+    cases hcc : g.cache.cap with
+    | none => trivial
+    | some n =>
+      cases n with
+      | zero => exact absurd hcc hc
+      | succ m => simp [Lru.Room]
+  exact within_capacity_hit cfg answer cap g hc k [] [] (by simp) hroom
+
+/-- the premises are satisfiable: capacity 2, one other inquiry asked three times in between -/
+example : (∀ x ∈ [8, 8, 7, 8], x ≠ 7 → x ∈ [8]) ∧ Lru.Room (some 2) [8].length := by
+  refine ⟨by simp, by simp [Lru.Room]⟩
+
+/-- the bound is tight: with capacity 1, one other inquiry in between evicts -/
+example : (CachedGuard.step (κ := Nat) ⟨false, false⟩ (fun _ _ => true) (lruBackend (some 1))
+      (asks ⟨false, false⟩ (fun _ _ => true) (lruBackend (some 1))
+        (CachedGuard.step ⟨false, false⟩ (fun _ _ => true) (lruBackend (some 1))
+          (initial (lruBackend (some 1)) []) (.ask 7)).1 [8]) (.ask 7)).1.storageAsks = 3 := by
+  decide
 
 /-- the decision log of `is_allowed` is written outside the cached function: one record per
 call, hit or miss (C17) -/
